@@ -785,6 +785,22 @@ def run(tier: str = 'quick', seed: int = 0, jobs: int = 16) -> dict:
         "round trip uses the real queueing.get_queue_integration_branch / "
         "get_queue_branch with a stub job and the same format expression "
         "as integration.py for w/",
+        ("FINDING" if groups and all('case_only' in g for g in groups)
+         else "KNOWN (check failure_groups, this run %s)" % (
+             'has no failure' if not groups else 'has OTHER failures too')) +
+        " (attributes, roundtrip_w, roundtrip_qw): IntegrationBranch "
+        "and QueueIntegrationBranch do not upper-case jira_issue_key / "
+        "jira_project (only FeatureBranch.__init__ does): "
+        "'w/4.3/project/test-0006'.jira_issue_key == 'test-0006' while the "
+        "source 'project/test-0006' reports 'TEST-0006'; every failure of "
+        "this run has diff=...:case_only (see failure_groups)",
+        "PROBES (outside printable ASCII): '$' lets a single trailing "
+        "newline through for every kind ('development/4.3\\n' is a "
+        "DevelopmentBranch whose .name keeps the newline and whose version "
+        "drops it; 'feature/x\\n' has feature_branch 'feature/x' != name); "
+        "\\d accepts any Unicode decimal digit ('development/\\u0664.\\u0663' "
+        "is DevelopmentBranch 4.3, 'q/w/\\u0661/..' has pr_id 1) while the "
+        "ticket number uses [0-9]; an interior newline is rejected",
         "either-cases in this run: %d; real classes seen: %s" % (
             either, json.dumps(kinds, sort_keys=True)),
     ]
